@@ -476,6 +476,20 @@ func (m *model) reach() []string {
 				}
 			}
 		}
+		npos, nneg, tiePos, tieNeg := 0, 0, false, false
+		for z, n := range zs {
+			if z > 0 {
+				npos += n
+				tiePos = tiePos || n >= 2
+			}
+			if z < 0 {
+				nneg += n
+				tieNeg = tieNeg || n >= 2
+			}
+		}
+		if (npos >= 13 && tiePos) || (nneg >= 13 && tieNeg) {
+			set["tie among ≥ 13 child contexts of one sign (beyond the insertion-sort range of sort.Slice)"] = true
+		}
 		for z, n := range zs {
 			if n >= 2 && z < 0 {
 				set["tie among negative z-index contexts"] = true
